@@ -36,12 +36,15 @@ pub fn worker_main(path: &str, from: usize, to: usize, opts: &Opts) {
                 crate::run::install_panic_recorder();
                 crate::run::ANNOUNCE.with(|a| a.set(true));
                 for idx in from..to.min(lines.len()) {
+                    let case: Value = serde_json::from_str(&lines[idx]).unwrap_or(json!({"g": "src", "src": ""}));
                     {
+                        // announce the case and the size of its input, so that a death of this process can be
+                        // attributed to an input of known size
+                        let len = crate::inputs::resolve(&case, &corpus).bytes.len();
                         let mut o = stdout.lock();
-                        writeln!(o, "B {idx}").unwrap();
+                        writeln!(o, "B {idx} {len}").unwrap();
                         o.flush().unwrap();
                     }
-                    let case: Value = serde_json::from_str(&lines[idx]).unwrap_or(json!({"g": "src", "src": ""}));
                     let r = run_case(&case, &corpus, events, xml);
                     let mut o = stdout.lock();
                     writeln!(o, "R {idx} {r}").unwrap();
@@ -122,13 +125,16 @@ fn lane(path: &str, from: usize, to: usize, opts: &Opts) -> Vec<String> {
             String::from_utf8_lossy(&tail).to_string()
         });
         let mut current: Option<usize> = None;
+        let mut current_len: i64 = -1;
         let mut stage = String::from("lex");
         let mut timed_out = false;
         loop {
             match rx.recv_timeout(Duration::from_secs(opts.timeout_s)) {
                 Ok(Msg::Line(l)) => {
                     if let Some(rest) = l.strip_prefix("B ") {
-                        current = rest.trim().parse().ok();
+                        let mut parts = rest.split_whitespace();
+                        current = parts.next().and_then(|x| x.parse().ok());
+                        current_len = parts.next().and_then(|x| x.parse::<i64>().ok()).unwrap_or(-1);
                         stage = String::from("lex");
                     } else if let Some(rest) = l.strip_prefix("S ") {
                         stage = rest.trim().to_string();
@@ -186,7 +192,7 @@ fn lane(path: &str, from: usize, to: usize, opts: &Opts) -> Vec<String> {
         } else {
             let stderr_short: String = stderr_tail.lines().rev().take(4).collect::<Vec<_>>().into_iter().rev().collect::<Vec<_>>().join(" | ");
             results[victim - from] =
-                Some(json!({"o": if timed_out { "timeout" } else { "crash" }, "how": format!("{how} in stage {stage}"), "signal": signal, "exit": code, "stderr": stderr_short}).to_string());
+                Some(json!({"o": if timed_out { "timeout" } else { "crash" }, "how": format!("{how} in stage {stage}"), "len": current_len, "signal": signal, "exit": code, "stderr": stderr_short}).to_string());
         }
         next = victim + 1;
         deaths += 1;
